@@ -551,9 +551,12 @@ package rsm
 // From the property: corruption is detected, not loaded. gBlockBad: some block handed to
 // validateBlock since the flag was last clear failed its checksum comparison.
 //@ ghost var gBlockBad bool
+// gCovered: number of bytes covered by blocks that passed the comparison
+//@ ghost var gCovered int
 //@ func validateBlock [C14]
 //@ trusted splits the block into payload and stored checksum, recomputes the checksum of the payload and compares (hash, bytes.Equal)
 //@ ghostset gBlockBad := old(gBlockBad) || !result
+//@ ghostset gCovered := old(gCovered) + ite(result, len(block), 0)
 //@ func mustGetChecksum [C14]
 //@ trusted returns the hash implementation of the checksum type
 //@ ensures result != nil
@@ -564,32 +567,37 @@ package rsm
 //@ noframe
 //@ nobounds
 //@ requires !gBlockBad
-//@ modifies gBlockBad, br.block
+//@ modifies gBlockBad, gCovered, br.block
 //@ ensures !gBlockBad
+// what becomes readable is exactly the payload of the block that was just validated
+//@ ensures result1 == nil ==> gCovered == old(gCovered) + len(br.block) + checksumSize
 
 // Read hands out only bytes of blocks that passed validation
 //@ func (br *blockReader) Read [C14]
 //@ noframe
 //@ nobounds
 //@ requires !gBlockBad
-//@ modifies gBlockBad, br.block
+//@ modifies gBlockBad, gCovered, br.block
 //@ ensures !gBlockBad
 //@ loop 1 invariant !gBlockBad
 
 // the stream validator accepts only if every complete block it has seen matched its checksum
 //@ func (v *v2validator) validateMagicSize [C14]
 //@ trusted compares the magic number and the recorded payload size of the tail
+// every byte received so far is either covered by a validated block or still buffered
 //@ func (v *v2validator) AddChunk [C14 C15]
 //@ noframe
 //@ nobounds
-//@ requires !gBlockBad
-//@ modifies gBlockBad, v.block, v.total
-//@ ensures result ==> !gBlockBad
-//@ loop 1 invariant !gBlockBad
+//@ requires !gBlockBad && v.total == gCovered + len(v.block) && v.total >= 0 && v.total + len(data) < 4611686018427387904
+//@ requires chunkID == 0 ==> len(data) >= HeaderSize
+//@ modifies gBlockBad, gCovered, v.block, v.total
+//@ ensures result ==> !gBlockBad && v.total == gCovered + len(v.block)
+//@ loop 1 invariant !gBlockBad && v.total == gCovered + len(v.block)
+// accepted only if everything but the 16-byte tail is covered by validated blocks
 //@ func (v *v2validator) Validate [C14 C15]
 //@ noframe
 //@ nobounds
-//@ requires !gBlockBad
-//@ modifies gBlockBad
-//@ ensures result ==> !gBlockBad
-//@ loop 1 invariant !gBlockBad
+//@ requires !gBlockBad && v.total == gCovered + len(v.block)
+//@ modifies gBlockBad, gCovered
+//@ ensures result ==> !gBlockBad && v.total == gCovered + tailSize
+//@ loop 1 invariant !gBlockBad && len(block) >= 0 && v.total == gCovered + len(block) + tailSize
